@@ -567,6 +567,8 @@ class Parser:
     def parse_type_and_quals(self, cdecl):
         ast, macros = self._parse('void __dummy(\n%s\n);' % cdecl)[:2]
         assert not macros
+        if ast.ext[-1].type.args is None:
+            raise CDefError("expected a C type, got %r" % (cdecl,))
         exprnode = ast.ext[-1].type.args.params[0]
         if isinstance(exprnode, pycparser.c_ast.ID):
             raise CDefError("unknown identifier '%s'" % (exprnode.name,))
